@@ -185,7 +185,8 @@ fn api_sequence(stats: &mut Vec<&'static str>, rng: &mut Rng, board: &Board, d: 
                 d.s(&format!("{:?} {:x} {:X} {:b}", b[Color::White], b[Color::Black], b.raw().all(), b[chess_bitboard::Piece::Pawn]));
             }
             16 => {
-                let depth = if b.legals().len() > 40 { 1 } else { rng.range(1, 2) as usize };
+                // depth 0 included: "no plies" is a legitimate argument of a public function
+                let depth = if b.legals().len() > 40 { rng.range(0, 1) as usize } else { rng.range(0, 2) as usize };
                 d.u(b.perft_test(depth) as u64);
             }
             17 | 18 => {
